@@ -361,7 +361,8 @@ macro_rules! float_cases {
             for &l in &lams {
                 let lr = R(l);
                 let chk = |x: F| if x.is_nan() { Some("NaN") } else if x < 0.0 { Some("negative") } else if x.is_infinite() { Some("infinite") } else if x.fract() != 0.0 { Some("not an integer") } else { None };
-                let c = r.add("Poisson", N, &[("lambda", l)], move || Poisson::<F>::new(l as F).ok(), chk, disc(move |k| poisson_cdf(k, lr), 0.0, INF), true);
+                let pref = Arc::new(std::sync::OnceLock::<DiscRef>::new());
+                let c = r.add("Poisson", N, &[("lambda", l)], move || Poisson::<F>::new(l as F).ok(), chk, disc(move |k| pref.get_or_init(|| poisson_ref(lr)).cdf(k), 0.0, INF), true);
                 if l < 12.0 && l > 0.5 { c.law_note = "Knuth product method: law not decided (no restart structure), support/termination only"; }
             }
             if !IS32 {
@@ -501,7 +502,8 @@ pub fn cases_int(r: &mut Reg, tier: Tier, _seed: u64) {
     for (n, p, inlaw) in bin {
         let nf = n as f64;
         let chk = move |x: u64| if x > n { Some("above n") } else { None };
-        let c = r.add("Binomial", "u64", &[("n", nf), ("p", p)], move || Binomial::new(n, p).ok(), chk, disc(move |k| binomial_cdf(k, nf, p), 0.0, nf), inlaw);
+        let bref = Arc::new(std::sync::OnceLock::<DiscRef>::new());
+        let c = r.add("Binomial", "u64", &[("n", nf), ("p", p)], move || Binomial::new(n, p).ok(), chk, disc(move |k| bref.get_or_init(|| binomial_ref(nf, p)).cdf(k), 0.0, nf), inlaw);
         let pp = p.min(1.0 - p);
         if pp > 0.0 && 1.0 - pp == 1.0 && nf * pp < 10.0 { c.law_note = "Poisson-limit branch (Knuth product method): law decided only coarsely"; }
     }
@@ -530,7 +532,7 @@ pub fn cases_int(r: &mut Reg, tier: Tier, _seed: u64) {
         let chk = move |x: u64| if x < lo || x > hi { Some("outside [max(0,n+K-N), min(n,K)]") } else { None };
         let (nf, kf, sf) = (nn as f64, kk as f64, n as f64);
         r.add("Hypergeometric", "u64", &[("N", nf), ("K", kf), ("n", sf)], move || Hypergeometric::new(nn, kk, n).ok(), chk,
-            disc(move |x| hypergeom_cdf(x, nn, kk, n), lo as f64, hi as f64), inlaw);
+            { let href = Arc::new(std::sync::OnceLock::<DiscRef>::new()); disc(move |x| href.get_or_init(|| hypergeom_ref(nf, kf, sf)).cdf(x), lo as f64, hi as f64) }, inlaw);
     }
 }
 
@@ -579,5 +581,7 @@ pub fn all_cases(tier: Tier, seed: u64) -> Vec<Case> {
     cases_f64(&mut r, tier, seed);
     cases_f32(&mut r, tier, seed);
     cases_int(&mut r, tier, seed);
+    let mut seen = std::collections::BTreeSet::new();
+    r.v.retain(|c| seen.insert(c.label.clone()));
     r.v
 }
